@@ -61,6 +61,9 @@ func raceLine(msg string) string {
 		}
 	}
 	out := "race: " + strings.Join(fr, " vs ")
+	if shutdownBesideDrawing(msg) {
+		out = "race: shutdown-beside-drawing"
+	}
 	b := []byte(out)
 	for i := range b {
 		if b[i] < 0x20 || b[i] > 0x7e || b[i] == '"' || b[i] == '\\' {
@@ -154,4 +157,34 @@ func runChildren[T any](child, dir string, list []*T, died func(i int, msg strin
 	}
 	wg.Wait()
 	return out
+}
+
+// shutdownBesideDrawing recognises one family of reports: one access is made on the library's shutdown
+// path (Vaxis.close, which the signal handler's goroutine runs too), the other by the application's
+// goroutine inside Render, ShowCursor or HideCursor. The two stacks are the blocks that follow the
+// "... at 0x... by goroutine" headers.
+func shutdownBesideDrawing(msg string) bool {
+	var blocks []string
+	cur := -1
+	for _, l := range strings.Split(msg, "\n") {
+		t := strings.TrimSpace(l)
+		switch {
+		case strings.Contains(t, " by goroutine ") || strings.Contains(t, " by main goroutine"):
+			blocks = append(blocks, "")
+			cur = len(blocks) - 1
+		case strings.HasPrefix(t, "Goroutine ") || t == "":
+			cur = -1
+		case cur >= 0:
+			blocks[cur] += t + "\n"
+		}
+	}
+	if len(blocks) != 2 {
+		return false
+	}
+	closing := func(b string) bool { return strings.Contains(b, "vaxis.(*Vaxis).close()") }
+	drawing := func(b string) bool {
+		return !closing(b) && (strings.Contains(b, "vaxis.(*Vaxis).Render()") || strings.Contains(b, "vaxis.(*Vaxis).ShowCursor()") ||
+			strings.Contains(b, "vaxis.(*Vaxis).HideCursor()"))
+	}
+	return closing(blocks[0]) && drawing(blocks[1]) || closing(blocks[1]) && drawing(blocks[0])
 }
